@@ -18,7 +18,7 @@ import (
 func TestC18(t *testing.T) {
 	r := NewReporter(t)
 	defer r.Done()
-	r.Rule("(a) every tree with <= N nodes x {plain, PS3}: successive opens with the virtual clock advanced by {0, 1 s, 1 h, 400 d} between them, library view and over the protocol; (b) two concurrent opens+reads of the same tree under the controlled scheduler (scheduling points = leaf filesystem operations, all interleavings with <= 2/3 preemptions) for 4 representative trees; (c) an open disturbed by one deviation at every leaf filesystem operation index (EIO, EINTR, short reads of 1 / half / all-but-one / 5 / 7 / 8 bytes) fails or yields the same image and stays readable; oracle: equal size, byte-equal outside the PVD/SVD creation/modification timestamps and PS3 sector-1 filler; distinct by (tree, mode, gap | schedule)")
+	r.Rule("(a) every tree with <= N nodes x {plain, PS3}: successive opens with the virtual clock advanced by {0, 1 s, 1 h, 400 d} between them, library view and over the protocol; (b) two concurrent opens+reads of the same tree under the controlled scheduler (scheduling points = leaf filesystem operations, all interleavings with <= 2/3 preemptions) for 4 representative trees; (c) for these and a PS3 tree with decoy PARAM.SFO files: an open disturbed by one deviation at every leaf filesystem operation index (EIO, EINTR, short reads of 1 / half / all-but-one / 5 / 7 / 8 bytes) fails or yields the same image and stays readable; oracle: equal size, byte-equal outside the PVD/SVD creation/modification timestamps and PS3 sector-1 filler; distinct by (tree, mode, gap | schedule)")
 	base := filepath.Join(scratchBase(), sprintf("verifh-c18-%d", os.Getpid()))
 	root := filepath.Join(base, "root")
 	defer os.RemoveAll(base)
@@ -131,10 +131,19 @@ func TestC18(t *testing.T) {
 		{Nodes: []TreeNode{{Parent: -1, Dir: true, Name: "a"}, {Parent: 0, Size: 2048, Name: "a"}, {Parent: -1, Size: 0, Name: "B.TXT"}}},
 		{Nodes: []TreeNode{{Parent: -1, Dir: true, Name: "c d"}, {Parent: 0, Dir: true, Name: "é"}, {Parent: 1, Size: 2047, Name: "a"}}},
 		{Nodes: []TreeNode{{Parent: -1, Size: 1, Name: "a"}}},
+		// PS3 mode with decoys: other PARAM.SFO files with other title ids next to the real one (multi-title disc
+		// folders, backups, a copy in USRDIR) - a disturbed open must not pick up one of them instead
+		{Nodes: []TreeNode{{Parent: -1, Size: 2049, Name: "a"}}},
 	}
 	for ti, tr := range reps {
-		ps3 := ti == 3
+		ps3 := ti >= 3
+		decoys := ti == 4
 		build(tr, ps3)
+		if decoys {
+			for p, id := range map[string]string{"PS3_GM01/PARAM.SFO": "BLES54321", "PARAM.SFO": "BCUS11111", "PS3_GAME/USRDIR/PARAM.SFO": "NPUB22222", "PS3_GAME/PARAM.SFO.bak": "BLJM33333", "PS3_GAMEX/PARAM.SFO": "BCES44444"} {
+				writeFileAbs(filepath.Join(root, "T", p), mkSFO([]sfoKV{{"TITLE_ID", id}}), baseTime)
+			}
+		}
 		solo, _, err := readLib(ps3)
 		if err != nil {
 			continue
@@ -310,6 +319,9 @@ func TestC18(t *testing.T) {
 				}
 				r.Outcome("faulted-open-same")
 			}
+		}
+		if decoys {
+			continue // only part (c) for this tree
 		}
 		execs, complete := exploreSchedules(bound, r.Shard, r.NShards, run, r.TimeUp)
 		r.ExtraAdd("concurrent_executions", int64(execs))
